@@ -144,24 +144,34 @@ impl Arch {
 
 /// Full routine text for a linearized program, as the driver would write it to the `.asm` file.
 pub fn codegen(p: axcut::syntax::Prog, arch: Arch) -> Result<(String, usize), StageError> {
-    let _g = CODEGEN_LOCK.lock().unwrap_or_else(|e| e.into_inner());
-    let r = guarded(move || match arch {
-        Arch::X86 => {
-            let code = axcut2backend::coder::compile::<axcut2x86_64::Backend, _, _, _>(p);
-            let n = code.number_of_arguments;
-            (axcut2x86_64::into_routine::into_x86_64_routine(code).print_to_string(None), n)
-        }
-        Arch::A64 => {
-            let code = axcut2backend::coder::compile::<axcut2aarch64::Backend, _, _, _>(p);
-            let n = code.number_of_arguments;
-            (axcut2aarch64::into_routine::into_aarch64_routine(code).print_to_string(None), n)
-        }
-        Arch::Rv => {
-            let code = axcut2backend::coder::compile::<axcut2rv64::Backend, _, _, _>(p);
-            let n = code.number_of_arguments;
-            (axcut2rv64::into_routine::into_rv64_routine(code), n)
-        }
-    });
+    // only the instruction selection needs the lock (fresh label counter); printing the text is
+    // done outside of it
+    macro_rules! select {
+        ($backend:ty) => {{
+            let _g = CODEGEN_LOCK.lock().unwrap_or_else(|e| e.into_inner());
+            guarded(move || axcut2backend::coder::compile::<$backend, _, _, _>(p))
+        }};
+    }
+    let r = match arch {
+        Arch::X86 => select!(axcut2x86_64::Backend).and_then(|code| {
+            guarded(move || {
+                let n = code.number_of_arguments;
+                (axcut2x86_64::into_routine::into_x86_64_routine(code).print_to_string(None), n)
+            })
+        }),
+        Arch::A64 => select!(axcut2aarch64::Backend).and_then(|code| {
+            guarded(move || {
+                let n = code.number_of_arguments;
+                (axcut2aarch64::into_routine::into_aarch64_routine(code).print_to_string(None), n)
+            })
+        }),
+        Arch::Rv => select!(axcut2rv64::Backend).and_then(|code| {
+            guarded(move || {
+                let n = code.number_of_arguments;
+                (axcut2rv64::into_routine::into_rv64_routine(code), n)
+            })
+        }),
+    };
     r.map_err(|msg| StageError::Panic { stage: "codegen", msg })
 }
 
